@@ -43,7 +43,9 @@ type pathsCase struct {
 	Locs []pathsLoc `json:"locs"`
 }
 
-var atomName = map[string]string{"x": "x.go", "y": "y.go", "z": "z.go", "gomod": "go.mod", "testdir": "_test", "testmain": "_testmain.go"}
+// (two directory names of the remote machine are not ASCII; byte order among siblings is unchanged:
+// /Qü < /R, and under /R: Sé < fa)
+var atomName = map[string]string{"x": "x.go", "y": "y.go", "z": "z.go", "gomod": "go.mod", "testdir": "_test", "testmain": "_testmain.go", "S": "Sé", "Q": "Qü"}
 
 func atomsToPath(a []string, T string) string {
 	if len(a) == 0 {
@@ -329,6 +331,30 @@ func checkPathsCase(res *Result, pc *pathsCase, T string, idx int) {
 		}
 		if !bad && c.LocalSrcPath != "" && !strings.HasSuffix(c.LocalSrcPath, c.RelSrcPath) {
 			bad = true
+		}
+		// generic, on the real values: a frame that got a location lies under one of the detected roots (a
+		// root followed by a path separator), and its relative path is relative
+		if c.Location != stack.LocationUnknown && c.RemoteSrcPath != "" && !strings.HasSuffix(c.RemoteSrcPath, "_test/_testmain.go") {
+			under := false
+			roots := []string{}
+			if s.RemoteGOROOT != "" {
+				roots = append(roots, s.RemoteGOROOT+"/src")
+			}
+			for r := range s.RemoteGOPATHs {
+				roots = append(roots, r+"/src", r+"/pkg/mod")
+			}
+			for r := range s.LocalGomods {
+				roots = append(roots, r)
+			}
+			for _, r := range roots {
+				if strings.HasPrefix(c.RemoteSrcPath, r+"/") {
+					under = true
+				}
+			}
+			if !under || strings.HasPrefix(c.RelSrcPath, "/") {
+				res.violation(mk("C18", "located-without-root", fmt.Sprintf("frame %s is classed %s (relative path %q) although it lies under none of the detected roots %v", c.RemoteSrcPath, c.Location, c.RelSrcPath, roots), want, got))
+				return
+			}
 		}
 		if bad {
 			f := mk("C18", "frame", fmt.Sprintf("frame %s is mapped differently from the specification", c.RemoteSrcPath), want, got)
